@@ -58,7 +58,7 @@ def register(PROPS, h):
                      "constructible = public constructors within the documented limits; DNS names <= 255 bytes (the `&str` encoder asserts that bound)",
                      "a panic while decoding is left to C13; a panic while re-encoding a decoded message counts as serialize(m) != b",
                      "the frame layer is only checked for canonical frames (QUIC varints accept non-minimal forms by design, frames are not signed)"],
-        gates=dict(quick=gates(1), thorough=gates(30)),
+        gates=dict(quick=gates(1), thorough=gates(15)),
         runs=dict(
             quick=[native("h-wire", "C15")],
             thorough=[native("h-wire", "C15"), native("h-wire", "C15", profile="release")],
